@@ -168,6 +168,11 @@ class Ctx:
         """contract for calls whose callee text matches `regex` (generic trait calls such as <S as Serializer>::serialize_i64)"""
         self.ex.raw_summaries.append((regex, fn))
 
+    def unwind(self, name_part, n):
+        """unroll the loops of functions whose MIR name contains `name_part` n times; exceeding the bound is a panic
+        edge (refuted by no_panic), so the bound is checked"""
+        self.ex.unwind[name_part] = n
+
     def summarize(self, short_name, fn):
         """use a contract (proved by another obligation) in place of a callee's body -- assume/guarantee composition"""
         self.ex.summaries[short_name] = fn
